@@ -729,6 +729,10 @@ func genCases(r *ev.Run) []caseSpec {
 	add("duplicate-file", 0, "schema-last",
 		fileSpec{Name: "first-name.bin", Size: 600*kib + rng.Intn(200*kib), Content: "random"},
 		fileSpec{Name: "another name.dat", Content: "as:first-name.bin"})
+	// a zip of exactly two chunks whose size estimate fails (a long file name widens the gap
+	// between the estimate and the real zip size)
+	add("two-chunk-zips", 0, "schema-last", fileSpec{Name: strings.Repeat("long-name-", 20) + ".bin", Size: 600*kib + rng.Intn(300*kib), Content: "random"})
+	out[len(out)-1].TruncSearch = "two-chunk"
 	add("truncate-retry", 500*kib+rng.Intn(500*kib), "schema-last", fileSpec{Name: "ptrunc.bin", Size: 1300*kib + rng.Intn(400*kib), Content: "periodic", Period: 66*kib + rng.Intn(300*kib)})
 	out[len(out)-1].TruncSearch = "any"
 	if !r.Thorough() {
@@ -890,6 +894,10 @@ func run(r *ev.Run) {
 	}
 	blobpacked.SetRecovery(blobpacked.NoRecovery)
 
+	if os.Getenv("VERIF_ONLY") != "" {
+		r.Assume("VERIF_ONLY replay of selected cases: the coverage requirements of a full run are not applied")
+		return
+	}
 	r.Require("file_class", "single-zip", "multi-zip", "repeated-chunks", "duplicate-file", "under-threshold", "just-over-threshold")
 	if r.Thorough() {
 		r.Require("file_class", "three-or-more-zips", "truncate-retry")
@@ -900,9 +908,6 @@ func run(r *ev.Run) {
 	r.Require("live_step", "after-zip-store", "after-meta-batch", "after-loose-deletion", "after-whole-row")
 	r.Require("removes", "loose", "packed")
 	r.Require("zip_shape", "manifest-with-repeated-chunk", "part>0")
-	if os.Getenv("VERIF_ONLY") != "" {
-		r.Assume("VERIF_ONLY replay: coverage requirements are not meaningful for a single case")
-	}
 }
 
 // ------------------------------------------------------------------ truncate-and-retry
@@ -963,7 +968,13 @@ func (c *caseCtx) searchTrunc() {
 		var parts []ps
 		for _, zr := range refsOf(res.lw.large) {
 			d, _ := res.lw.large.BlobContents(zr)
-			if zi := validateZip(w, zr, []byte(d), blobSizeLimit); zi.parsed {
+			zi := validateZip(w, zr, []byte(d), mz)
+			for _, p := range zi.Problems {
+				r.Violation(p.Sig, fmt.Sprintf("[%s max zip size %d] %s", w.Spec.ID, mz, p.What), caseReplay(c, map[string]any{"max_zip_used": mz}))
+			}
+			r.Count("zips_validated", 1)
+			r.Eval(1)
+			if zi.parsed {
 				parts = append(parts, ps{zi.Part, len(d)})
 			}
 		}
@@ -974,17 +985,29 @@ func (c *caseCtx) searchTrunc() {
 		return sizes, truncations(&w2, res.log, opStart), nil
 	}
 	start := w.Spec.MaxZip
+	ds := []int{1, 40, 120, 250, 400, 700}
+	if w.Spec.TruncSearch == "two-chunk" {
+		// room for the first two chunks of the file but not for the third
+		ch := w.Files[0].Chunks
+		if len(ch) < 4 {
+			r.Inconclusive(fmt.Sprintf("%s: file has only %d chunks", w.Spec.ID, len(ch)))
+			return
+		}
+		start = int(ch[0].Size+ch[1].Size+ch[2].Size/2) + 2048
+		w.Spec.MaxZip, c.limit, c.zc.limit = start, start, start
+		ds = []int{1, 20, 60, 120, 200}
+	}
 	sizes, _, err := try(start)
 	if err != nil {
 		r.Inconclusive(fmt.Sprintf("%s: truncate search: %v", w.Spec.ID, err))
 		return
 	}
-	if w.Spec.TruncSearch == "part0" && len(sizes) > 1 {
+	if (w.Spec.TruncSearch == "part0" || w.Spec.TruncSearch == "two-chunk") && len(sizes) > 1 {
 		sizes = sizes[:1]
 	}
 	chosen, tries, reported := 0, 0, false
 	for _, z := range sizes {
-		for _, d := range []int{1, 40, 120, 250, 400, 700} {
+		for _, d := range ds {
 			mz := z - d
 			if mz < 300<<10 {
 				continue
@@ -994,6 +1017,7 @@ func (c *caseCtx) searchTrunc() {
 			switch {
 			case err != nil && strings.HasPrefix(err.Error(), "runaway:"):
 				r.Note("trunc_search", "runaway")
+				r.Note("runaway_found_in", w.Spec.Class)
 				if !reported {
 					reported = true
 					r.Violation("pack-runaway/truncate-retry", fmt.Sprintf("[%s max zip size %d] %v", w.Spec.ID, mz, err),
